@@ -80,6 +80,8 @@ impl TargetWatcher {
         let watcher_config = Config::default().with_poll_interval(Duration::from_millis(100));
         Watcher::new(
             move |result: notify::Result<notify::Event>| {
+                #[cfg(zinoma_verif)]
+                crate::verif::hooks::watch_event_seen(&target_id, &result);
                 let relevant_files = result
                     .unwrap()
                     .paths
